@@ -295,7 +295,9 @@ func (e *Env) field(x *Expr) Val {
 					specErr("nested struct field %s", x)
 				}
 				h := e.v.heap(e.st, fieldHeap(p.Elem(), f.Name()), ArrSort(fs))
-				return Val{T: Select(h, base.T), Typ: f.Type()}
+				r := Select(h, base.T)
+				e.v.noteEntryLoad(h, r)
+				return Val{T: r, Typ: f.Type()}
 			}
 		}
 		// ghost field
@@ -496,6 +498,12 @@ func (e *Env) call(x *Expr) Val {
 		return boolVal(Or(Ne(SRef(a.T), SRef(b.T)),
 			Le(Add(SOff(a.T), SCap(a.T)), SOff(b.T)),
 			Le(Add(SOff(b.T), SCap(b.T)), SOff(a.T))))
+	}
+	if strings.HasPrefix(x.Name, "as_") && len(x.Args) == 1 {
+		// as_T(x): view an interface value (represented by the pointer it holds) as *T
+		a := e.eval(x.Args[0])
+		pt := e.g.parseType("*"+strings.TrimPrefix(x.Name, "as_"), e.pkg)
+		return Val{T: a.T, Typ: pt}
 	}
 	if gd := e.ghostDecl(x.Name); gd != nil {
 		if len(x.Args) != 1 {
